@@ -436,7 +436,23 @@ impl EventParser {
 
         if let Some(event_name) = event_name {
             let payload_type = if let Some(payload_expr) = payload_expr {
-                self.infer_payload_type(payload_expr, symbols)
+                let inferred = self.infer_payload_type(payload_expr, symbols);
+                // A bare lower-case identifier that is not in the symbol table is a local
+                // binding whose type is not written down (`let v = make();`), not a type name:
+                // without this it would be emitted as the type `types.v`.
+                let is_untyped_local = match payload_expr {
+                    Expr::Path(path) => path.path.get_ident().is_some_and(|ident| {
+                        let name = ident.to_string();
+                        !symbols.contains_key(&name)
+                            && name.starts_with(|c: char| c.is_lowercase() || c == '_')
+                    }),
+                    _ => false,
+                };
+                if is_untyped_local {
+                    "unknown".to_string()
+                } else {
+                    inferred
+                }
             } else {
                 "()".to_string()
             };
